@@ -257,3 +257,99 @@ def cas_line(sk):
     parts += [q(v) for v in sk["slc"]] + [q(v) for v in sk["src"]] + sk["cs"] + [q(v) for v in sk["gd"]]
     parts += [q(sk["w"]), sk["n_leaf"], sk["Kmax"], sk["k"], sk["leaf_id"], sk["split"], sk["feat"], q(sk["thr"])]
     return " ".join(str(p) for p in parts)
+
+
+# ------------------------------------------------------------------ hybrid fits: scripted prefix, then the real search
+def split_kind(st, lt, rt, leaf):
+    ncl = st["ncl"]
+    if lt >= ncl and rt >= ncl:
+        return "double_star"
+    if max(lt, rt) >= ncl:
+        return "star"
+    return "switch" if st["cluster"][leaf] in (lt, rt) else "realloc"
+
+
+def state_of_call(Xa, kernel, lte, Y, Z, ncl, Kmax, nl, ml, feats):
+    """the tree state as find_best_split receives it"""
+    n, d = Xa.shape
+    return {"n": n, "d": d, "L": int(nl), "Kmax": int(Kmax), "X": Xa, "kernel": kernel,
+            "leaf": np.asarray(Z).argmax(0).tolist(), "cluster": np.asarray(Y)[:, :nl].argmax(0).tolist(), "ncl": int(ncl),
+            "explore": [int(e) for e in lte], "features": [int(f) for f in feats], "min_leaf": int(ml)}
+
+
+def bookkeeping_errors(Y, Z, ncl, nl):
+    """consistency of the arguments handed to find_best_split, from the property text: every sample sits in exactly one
+    of the first n_leaves leaves, each of those leaves belongs to exactly one cluster, and the clusters in use are
+    exactly 0 .. n_clusters-1"""
+    Y = np.asarray(Y).astype(int)
+    Z = np.asarray(Z).astype(int)
+    bad = []
+    if not (Z[:nl].sum(0) == 1).all() or Z[nl:].any():
+        bad.append("a sample is not in exactly one of the first n_leaves leaves")
+    if not (Y[:, :nl].sum(0) == 1).all() or Y[:, nl:].any():
+        bad.append("a leaf does not belong to exactly one cluster")
+    used = sorted(set(Y[:, :nl].argmax(0).tolist()))
+    if used != list(range(int(ncl))):
+        bad.append(f"n_clusters={int(ncl)} but the clusters in use are {used}")
+    return bad
+
+
+def run_hybrid_fit(X, kern, params, rs, prefix_len, exact=True):
+    """real Kauri.fit whose first `prefix_len` answers of find_best_split are scripted (a random ADMISSIBLE split of a
+    random kind, gain 1), the following ones computed by the transliterated current source.  Reaches the intermediate
+    tree states the greedy search seldom visits (a cluster owning several leaves, double stars, reallocations).
+    Returns dict(model, score, pred, prefix=[(gain, leaf, lt, rt, feat, thr)], draws=[features of the real steps],
+                 calls=[(state, split tuple, scripted?, bookkeeping errors)])"""
+    import gemclus.tree.kauri as K
+    from gemclus.tree import Kauri
+    mx = translit(exact)
+    conv = to_q_array if exact else (lambda a: a)
+    prefix, draws, calls = [], [], []
+
+    def fbs(kernel, Xa, lte, Y, Z, ncl, Kmax, nl, ml, feats):
+        st = state_of_call(Xa, kernel, lte, Y, Z, ncl, Kmax, nl, ml, feats)
+        errs = bookkeeping_errors(Y, Z, ncl, nl)
+        if len(prefix) < prefix_len and not draws:
+            adm = admissible(st) if not errs else []
+            if adm:
+                kinds = {}
+                for a in adm:
+                    kinds.setdefault(split_kind(st, a[3], a[4], a[0]), []).append(a)
+                names = sorted(kinds)
+                # the kinds that need a cluster owning several leaves are rare: prefer them when they are possible
+                w = np.array([{"double_star": 8.0, "realloc": 5.0, "switch": 3.0, "star": 2.0}[k] for k in names])
+                pool = kinds[names[int(rs.choice(len(names), p=w / w.sum()))]]
+                leaf, f, thr, lt, rt = pool[rs.randint(len(pool))]
+                tup = (Fraction(1), int(leaf), int(lt), int(rt), int(f), Fraction(float(thr)))
+                prefix.append(tup)
+                calls.append((st, tup, True, errs))
+                return mx.Split(Fraction(1) if exact else 1.0, int(leaf), int(lt), int(rt), int(f), float(thr), False)
+        draws.append([int(f) for f in feats])
+        s = mx.find_best_split(conv(kernel), Xa, lte, conv(Y), conv(Z), ncl, Kmax, nl, ml, feats)
+        tup = (Fraction(s.gain), int(s.leaf), int(s.left_target), int(s.right_target), int(s.feature), Fraction(float(s.threshold)))
+        calls.append((st, tup, False, errs))
+        return s
+    old = K.find_best_split, K.gemini_objective
+    K.find_best_split = fbs
+    K.gemini_objective = lambda y_pred, kernel: mx.gemini_objective(y_pred, conv(kernel))
+    try:
+        model = Kauri(**params).fit(X, kern)
+        score = model.score(X, kern)
+        pred = model.predict(X)
+    finally:
+        K.find_best_split, K.gemini_objective = old
+    return {"model": model, "score": score, "pred": pred, "prefix": prefix, "draws": draws, "calls": calls}
+
+
+def fith_line(X, kern, params, prefix, draws):
+    n, d = X.shape
+    maxDepth = n if params["max_depth"] is None else params["max_depth"]
+    maxLeaves = n if params["max_leaves"] is None else params["max_leaves"]
+    parts = ["fith", n, d] + [q(v) for v in kern.ravel()] + [q(v) for v in X.ravel()]
+    parts += [params["max_clusters"], maxDepth, params["min_samples_split"], params["min_samples_leaf"], maxLeaves, len(prefix)]
+    for (g, leaf, lt, rt, f, thr) in prefix:
+        parts += [q(g), leaf, lt, rt, f, q(thr)]
+    parts += [len(draws)]
+    for dr in draws:
+        parts += [len(dr)] + dr
+    return " ".join(str(p) for p in parts)
